@@ -26,10 +26,13 @@ def key_of(xml, cfg):
     return h(xml + "\0" + json.dumps(cfg, sort_keys=True))
 
 
-def table_event(key, resp):
+def table_event(key, resp, with_err=False):
+    """with_err: the error text is part of the observation (C06: the error is a function
+    of input and configuration too); across front-ends only the verdict is comparable"""
     st = "ok" if resp["status"] == "ok" else "fail"
     body = resp.get("out") if st == "ok" else None
-    return {"e": "table", "key": key, "status": st, "hash": h(body) if st == "ok" else "-", "empty": bool(st == "ok" and body == "")}
+    hh = h(body) if st == "ok" else (h(resp.get("err") or "") if with_err else "-")
+    return {"e": "table", "key": key, "status": st, "hash": hh, "empty": bool(st == "ok" and body == "")}
 
 
 def validate_history(events, tag):
